@@ -5,7 +5,7 @@ cd /verif
 out=seeded/MATRIX.txt
 [ $# -eq 0 ] && : > $out
 declare -A ARGS=( [C01]="--seeds 3000 --budget 300" [C02]="--seeds 3000 --budget 300" [C03]="--seeds 3000 --budget 300" [C04]="--seeds 3000 --budget 300"
- [C05]="--seeds 3000 --budget 300" [C08]="--seeds 6000 --budget 300" [C12]="--seeds 6000 --budget 300" [C13]="--seeds 3000 --budget 300" )
+ [C05]="--seeds 3000 --budget 300" [C08]="--seeds 6000 --budget 300" [C12]="--seeds 6000 --budget 300" [C13]="--seeds 3000 --budget 300" [C03b]="--seeds 3000 --budget 400" )
 for id in ${@:-$(ls seeded | grep '^C')}; do
   git -C /repo diff --quiet || { echo "repo dirty"; exit 2; }
   git -C /repo apply /verif/seeded/$id/patch.diff || { echo "$id: patch does not apply" | tee -a $out; continue; }
